@@ -37,4 +37,12 @@ PROPS = {
              "the object; each connection AbsID is unique, parses (ParseMapKey) to one connection with its index, and GetEdge / Root.HasEdge on it "
              "return exactly that connection. non-trivial = >=2 objects and >=1 name that needs quoting or is non-ASCII.",
     ),
+    "C04": dict(
+        engine="p_compile", quick_checks=30000, thorough_checks=600000, quick_shards=14, thorough_shards=16,
+        rule="inputs: repo seeds, ~60 construct snippets (keywords in any letter case as keys and values, board blocks before/between/after other "
+             "content, all arrow forms, globs, vars, classes, imports), then rapid: structured diagrams (optionally with upper-cased reserved keys), "
+             "grammar-text file sets, diagrams with a board block inserted at a random position; inputs that do not compile are rejected and counted. "
+             "oracle: canon(compile(x)) == canon(compile(Format(Parse(x)))) as unordered object/edge maps, boards recursively, plus configuration; "
+             "imported files untouched. non-trivial = formatting changed the text and (>=3 objects or a board or a glob).",
+    ),
 }
